@@ -484,8 +484,11 @@ def fail (env : Env) (cfg : Cfg) (acceptsAnswer : Bytes) (w : Wire) (pos : Nat) 
     Content-Type (`preCT`: set earlier by a middleware or by the failing handler itself through `c.Header`)
     and the chain may already be aborted (`abortedBefore`: a guard that calls `c.Abort()` and then
     `c.Forbidden(err)`). `c.Header("Content-Type", …)` is `http.Header.Set`, it replaces whatever was
-    there; `c.Abort()` sets a flag that is already set. Neither plays any part in what is written. -/
-def failH (_preCT : Option Bytes) (_abortedBefore : Bool) (env : Env) (cfg : Cfg) (acceptsAnswer : Bytes) (w : Wire)
+    there; `c.Abort()` sets a flag that is already set. The request's context may be done (`ctxDone`:
+    cancelled, or its deadline exceeded, while the handler ran — `FailStatus(504, err)` after a backend
+    timeout): `fail` does not look at it, the client may well still be connected. None of the three plays
+    any part in what is written. -/
+def failH (_preCT : Option Bytes) (_abortedBefore : Bool) (_ctxDone : Bool) (env : Env) (cfg : Cfg) (acceptsAnswer : Bytes) (w : Wire)
     (pos : Nat) (call : Call) : Resp :=
   fail env cfg acceptsAnswer w pos call
 
